@@ -261,6 +261,8 @@ def _thr_names(fn: Func) -> set:
     out = {p for p in fn.params if p == "sim_threshold"}
     for _ in range(2):
         for x in walk_no_defs(fn.node):
+            if isinstance(x, ast.AnnAssign) and x.value is not None and isinstance(x.target, ast.Name):
+                x = ast.Assign(targets=[x.target], value=x.value)
             if isinstance(x, ast.Assign) and len(x.targets) == 1 and isinstance(x.targets[0], ast.Name):
                 v = x.value
                 while isinstance(v, ast.Call) and dotted(v.func) == "float" and v.args:
@@ -362,6 +364,18 @@ def rule_thr(ctx) -> None:
                 if call_tail(c) == "append" and src(c.func.value) in sorted_lists and c.args and isinstance(c.args[0], ast.Tuple):
                     sites.append((fn, n, c))
     ctx.floor("C11.THR", "appends to scored lists", len(sites), 3)
+    # the embed-store reader path ranks inside t2_semantic itself: its appends to the result are sites of the same rule
+    t2 = ctx.func(T2)
+    t2cfg = ctx.cfg(t2)
+    rets = {kw.value.id for x in walk_no_defs(t2.node) if isinstance(x, ast.Call) and call_tail(x) == "T2Result" for kw in x.keywords if kw.arg == "retrieved" and isinstance(kw.value, ast.Name)} or {"retrieved"}
+    reader_flags = {d.name for d in ctx.rd(t2).all_defs if d.value is not None and any(isinstance(y, ast.Name) and "reader" in y.id for y in ast.walk(d.value)) and isinstance(d.value, ast.Call) and dotted(d.value.func) == "bool"}
+    n_reader = 0
+    for n in t2cfg.nodes:
+        for c in node_calls(n):
+            if call_tail(c) == "append" and src(c.func.value) in rets and any(p and t in reader_flags for t, p in t2cfg.facts(n)):
+                n_reader += 1
+                sites.append((t2, n, c))
+    ctx.floor("C11.THR", "appends to the result on the embed-store reader path", n_reader, 1)
     for fn, n, c in sites:
         thr = _thr_names(fn)
         if not thr:
